@@ -132,6 +132,7 @@ type Thread struct {
 	// pending unbuffered send
 	pendingSend *chanItem
 	held        int // number of locks held (for diagnostics)
+	vc          vclock
 	result      Value
 	preempts    int
 }
@@ -202,6 +203,9 @@ type Interp struct {
 	vnow        int64
 	lockHist    []lockRecord
 	eagerSmallRem bool
+	accesses    map[slotKey][]accessRec
+	syncVC      map[interface{}]vclock
+	atomicAccess bool
 	inPure      bool
 	pureTabs    map[string][]*Term
 }
@@ -588,6 +592,7 @@ func (in *Interp) load(p Ptr) Value {
 			panic(abortf("read of global %s whose package init is not modelled", g))
 		}
 	}
+	in.access(slotKey{agg: p.Base, idx: p.Idx}, false)
 	return loadSlot(p.Base, p.Idx)
 }
 
@@ -603,6 +608,7 @@ func (in *Interp) store(p Ptr, v Value) {
 		storeSlot(p.Base, p.Idx+int(c.C), v)
 		return
 	}
+	in.access(slotKey{agg: p.Base, idx: p.Idx}, true)
 	storeSlot(p.Base, p.Idx, v)
 }
 
@@ -1010,6 +1016,7 @@ func (in *Interp) mapFind(m *MapObj, key Value) *mapEntry {
 	if m == nil {
 		return nil
 	}
+	in.access(slotKey{m: m}, false)
 	for _, e := range m.Entries {
 		if e.Deleted {
 			continue
@@ -1029,6 +1036,7 @@ func (in *Interp) mapFind(m *MapObj, key Value) *mapEntry {
 }
 
 func (in *Interp) mapSet(m *MapObj, key, val Value) {
+	in.access(slotKey{m: m}, true)
 	if e := in.mapFind(m, key); e != nil {
 		e.V = val
 		return
@@ -1038,6 +1046,7 @@ func (in *Interp) mapSet(m *MapObj, key, val Value) {
 }
 
 func (in *Interp) mapDelete(m *MapObj, key Value) {
+	in.access(slotKey{m: m}, true)
 	if e := in.mapFind(m, key); e != nil {
 		e.Deleted = true
 		m.N--
@@ -1091,6 +1100,7 @@ func (in *Interp) rangeIter(x Value) *IterV {
 	case MapV:
 		it := &IterV{m: s.M}
 		if s.M != nil {
+			in.access(slotKey{m: s.M}, false)
 			for i, e := range s.M.Entries {
 				if !e.Deleted {
 					it.order = append(it.order, i)
@@ -1323,6 +1333,7 @@ func (in *Interp) callBuiltin(th *Thread, b *ssa.Builtin, args []Value, site *ss
 			in.goPanic(th, "close of closed channel", "close of closed channel")
 		}
 		c.C.Closed = true
+		in.hbRelease(th, c.C)
 		in.syncPoint(th, "close")
 		return nil
 	case "min", "max":
